@@ -6,7 +6,10 @@
 //!   vcheck worker ... / vcheck one ...     internal
 
 mod c02;
+mod c03;
 mod c04;
+mod c05;
+mod c06;
 mod c09;
 mod c19;
 mod c20;
@@ -25,7 +28,7 @@ mod wire;
 use engine::{Check, Tier};
 
 fn registry() -> Vec<&'static dyn Check> {
-    vec![&c02::C02, &c04::C04, &c09::C09, &c19::C19, &c20::C20]
+    vec![&c02::C02, &c03::C03, &c04::C04, &c05::C05, &c06::C06, &c09::C09, &c19::C19, &c20::C20]
 }
 
 fn find(id: &str) -> &'static dyn Check {
